@@ -1,10 +1,12 @@
 #!/bin/sh
-# Dev-time: take round-2 sub-agent output /tmp/w2/<Cnn>/out/{a,b} in as seeded/<Cnn>c, <Cnn>d and run the target check on each.
+# Dev-time: take sub-agent output $W/<Cnn>/out/{a,b} in as seeded/<Cnn>$S1, <Cnn>$S2 and run the target check on each.
+# usage: W=/tmp/w3 S="e f" tools/intake.sh C01 C02 ...   (defaults: round 2 = /tmp/w2, "c d")
+W=${W:-/tmp/w2}; set -- $S -- "$@"; if [ "$1" = "--" ]; then S1=c; S2=d; shift; else S1=$1; S2=$2; shift 3; fi
 for P in "$@"; do
-  for x in a:c b:d; do
+  for x in a:$S1 b:$S2; do
     s=${x%%:*}; t=${x##*:}
-    [ -f /tmp/w2/$P/out/$s/patch.diff ] || { echo "$P/$s: no patch"; continue; }
-    /verif/tools/verify_seed.py /tmp/w2/$P/out/$s ${P}$t $P 2>&1 | cut -c1-400
+    [ -f $W/$P/out/$s/patch.diff ] || { echo "$P/$s: no patch"; continue; }
+    /verif/tools/verify_seed.py $W/$P/out/$s ${P}$t $P 2>&1 | cut -c1-400
     [ -d /verif/seeded/${P}$t ] && /verif/tools/kill_matrix.py ${P}$t 2>&1 | tail -1
   done
 done
